@@ -12,8 +12,12 @@
     defined), where each logged slice points, the definition's arrays after
     the run — and the specification is evaluated on the family as defined
     before the run ([resolve_family]).  [CFinish] / [CSteps] are the same
-    without a layout. *)
-From CSS Require Import Lib.Base Lib.Cases Model.Interp Model.InterpHeap.
+    without a layout.  [CHSession] is a program of several operations
+    (Model/InterpSession.v: NextStep calls, Finish, State.SetFlow) applied to
+    ONE BootProcess, evaluated on the slice-level session machine [session_h]
+    and compared, besides the final observation, with the trace the harness
+    recorded after every operation (log length, end reported). *)
+From CSS Require Import Lib.Base Lib.Cases Model.Interp Model.InterpHeap Model.InterpSession.
 
 (** observed log entry: step id, action codes, issue codes, measured ids,
     actor, actor whose code was attached *)
@@ -41,7 +45,14 @@ Inductive case : Type :=
 (* the same two with the memory layout of the definition: action arrays [h],
    steps = windows into them *)
 | CHFinish (h : heap) (fam : hfamily) (c0 : core) (root : Z) (o : obs oresult) (ho : hobs)
-| CHSteps (h : heap) (fam : hfamily) (c0 : core) (root : Z) (k : nat) (o : obs oresult) (ho : hobs).
+| CHSteps (h : heap) (fam : hfamily) (c0 : core) (root : Z) (k : nat) (o : obs oresult) (ho : hobs)
+(* a session (Model/InterpSession.v): several operations on ONE BootProcess —
+   NextStep calls (whatever they return), Finish, State.SetFlow between calls —
+   with the trace the harness recorded: after every operation the length of
+   the Log and whether the end of the flow was reported; the flag of [o] is
+   the one of the last operation *)
+| CHSession (h : heap) (fam : hfamily) (c0 : core) (root : Z) (ops : list op) (o : obs oresult) (ho : hobs)
+            (tr : trace).
 
 Definition optz (a : option Z) : Z := match a with Some x => x + 1 | None => 0 end.
 
@@ -142,8 +153,24 @@ Definition hcheck (h : heap) (r : outcome (mstate * heap * list hentry * bool))
   | _, _ => false
   end.
 
+Definition trace_eqb (a b : trace) : bool :=
+  list_eqb (fun x y : nat * bool => Nat.eqb (fst x) (fst y) && Bool.eqb (snd x) (snd y)) a b.
+
+Definition last_flag (tr : trace) : bool :=
+  match rev tr with [] => false | (_, d) :: _ => d end.
+
 Definition check (c : case) : bool :=
   match c with
+  | CHSession h hfam c0 root ops o ho tr =>
+      let fam := resolve_family h hfam in
+      wf_family (length h) hfam
+      && (if has_finish ops then stratified fam else true)
+      && match session_h grow_exact (fuel_bound fam) hfam ops (init_state root c0) h [] [] with
+         | Ok (st, h', log, tr') =>
+             trace_eqb tr tr' && hcheck h (Ok (st, h', log, last_flag tr')) o ho
+         | Panic => match o with OPanic => true | _ => false end
+         | _ => false
+         end
   | CHFinish h hfam c0 root o ho =>
       let fam := resolve_family h hfam in
       wf_family (length h) hfam && stratified fam
